@@ -203,7 +203,7 @@ def lean_audit(pid, prop_modules, all_modules):
 # regenerated from the CURRENT source on every build, so the checked program is derived from /repo
 INSTRUMENT_CLOCK = ["container/lru/expirable.go", "kvs/inmem/inmem.go", "kvs/redis/redis.go", "timeout/timeout.go"]
 # files whose time.NewTimer is redirected to the package's verifNewTimer (harness-controlled timers)
-INSTRUMENT_TIMERS = ["timeout/timeout.go"]
+INSTRUMENT_TIMERS = ["timeout/timeout.go", "kvs/inmem/inmem.go"]
 
 
 # files whose mutex-protected regions are announced to the harness: `X.lock.Lock()` is followed by
